@@ -750,6 +750,28 @@ pub fn issue_op(c: &mut Commands, op: Op, cmd: CmdId, top: bool, rm: Option<&mut
             record(issued);
             c.queue(marker(cmd));
         }
+        Op::EwrAdd(e) =>
+        {
+            let ent = with_ctx(|x| x.ents[e as usize]);
+            issued.issue_ok = c.get_entity(ent).is_some();
+            record(issued);
+            c.queue(marker(cmd));
+            if let Some(mut ec) = c.get_entity(ent) { ec.add_world_reactor::<HarnessEwr>(7); }
+        }
+        Op::EwrRemove(e, w) =>
+        {
+            let ent = with_ctx(|x| x.ents[e as usize]);
+            record(issued);
+            c.queue(marker(cmd));
+            c.syscall((ent, w), |In((ent, w)): In<(Entity, u8)>, mut c: Commands, reactor: EntityReactor<HarnessEwr>| {
+                match w
+                {
+                    0 => { reactor.remove(&mut c, entity_event::<EvA>(ent)); }
+                    1 => { reactor.remove(&mut c, entity_mutation::<CA>(ent)); }
+                    _ => { reactor.remove(&mut c, (entity_event::<EvA>(ent), entity_mutation::<CA>(ent))); }
+                }
+            });
+        }
         Op::DropSignal(e) =>
         {
             record(issued);
@@ -758,6 +780,26 @@ pub fn issue_op(c: &mut Commands, op: Op, cmd: CmdId, top: bool, rm: Option<&mut
                 let sig = with_ctx(|x| x.signals.get_mut(e as usize).and_then(|s| s.take()));
                 drop(sig);
             });
+        }
+    }
+}
+
+/// The entity world reactor of the lazy-program universe: its system is an ordinary harness actor.
+pub struct HarnessEwr(pub ActorId, pub Variant);
+
+impl EntityWorldReactor for HarnessEwr
+{
+    type Triggers = (EntityEventTrigger<EvA>, EntityMutationTrigger<CA>);
+    type Local = u32;
+    fn reactor(self) -> SystemCommandCallback
+    {
+        match self.1
+        {
+            Variant::Plain => SystemCommandCallback::new(plain_actor(self.0, false, true, vec![])),
+            Variant::NoTake => SystemCommandCallback::new(plain_actor(self.0, false, false, vec![])),
+            Variant::Erring => SystemCommandCallback::new(erring_actor(self.0, vec![])),
+            Variant::Exclusive => SystemCommandCallback::new(exclusive_actor(self.0, vec![], false)),
+            Variant::ExclusiveFlush => SystemCommandCallback::new(exclusive_actor(self.0, vec![], true)),
         }
     }
 }
@@ -1009,6 +1051,46 @@ fn run_program(cfg: &Arc<Config>)
         with_ctx(|x| x.actors_ready |= 1 << i);
     }
     drop(prepared);
+    // reactors registered at app level (`App::add_reactor`): presented to the monitor as setup operations
+    for (k, (variant, bundle)) in cfg.app_reactors.iter().enumerate()
+    {
+        let id = (cfg.actors.len() + k) as ActorId;
+        let before: Vec<Entity> = hooks::snapshot(app.world_mut()).system_commands.iter().map(|(e, _)| *e).collect();
+        let b = with_ctx(|x| dyn_bundle(x, bundle));
+        let cmd = CmdId{ by: Issuer::Setup, idx: 1000 + k as u16 };
+        push(TEv::Top{ cmd, issued: Issued{ op: Op::RegisterNew(*variant, *bundle, Mode::Persistent), payload: None, new_actor: Some(id), token: None, issue_ok: true, value: None } });
+        match variant
+        {
+            Variant::Plain => { app.add_reactor(b, plain_actor(id, false, true, vec![])); }
+            Variant::NoTake => { app.add_reactor(b, plain_actor(id, false, false, vec![])); }
+            Variant::Erring => { app.add_reactor(b, erring_actor(id, vec![])); }
+            Variant::Exclusive => { app.add_reactor(b, exclusive_actor(id, vec![], false)); }
+            Variant::ExclusiveFlush => { app.add_reactor(b, exclusive_actor(id, vec![], true)); }
+        }
+        let after: Vec<Entity> = hooks::snapshot(app.world_mut()).system_commands.iter().map(|(e, _)| *e).collect();
+        let new: Vec<Entity> = after.into_iter().filter(|e| !before.contains(e)).collect();
+        let ent = if new.len() == 1 { new[0] } else { Entity::PLACEHOLDER };
+        if new.len() != 1 { push(TEv::Value{ what: "app-reactor-not-spawned".into(), value: id as i64 }); }
+        with_ctx(|x| {
+            if new.len() == 1 { x.names.insert(ent, Name::Actor(id)); }
+            x.actors.push(ActorRt{ entity: ent, variant: *variant, runs: 0 });
+            x.actors_ready |= 1 << id;
+        });
+        let live = sample_live(app.world());
+        push(TEv::Applied{ cmd, live });
+        quiescent(app.world_mut());
+    }
+    if let Some(variant) = cfg.ewr
+    {
+        let id = cfg.ewr_actor().unwrap();
+        app.add_entity_reactor(HarnessEwr(id, variant));
+        let ent = hooks::entity_world_reactor_system::<HarnessEwr>(app.world()).map(|s| *s).unwrap_or(Entity::PLACEHOLDER);
+        with_ctx(|x| {
+            x.names.insert(ent, Name::Actor(id));
+            x.actors.push(ActorRt{ entity: ent, variant, runs: 0 });
+            x.actors_ready |= 1 << id;
+        });
+    }
     install_sink();
 
     // setup ops
